@@ -133,11 +133,18 @@ def _sorted_autos(t):
     return (t[0], t[1], t[2], kids)
 
 def directed(i):
-    """two fixed documents, run before the random ones in every tier: an automatic style:style used by the body and by a page
-    header (i = -2), and an automatic list style used by both, after a style only the header uses (i = -1)"""
+    """three fixed documents, run before the random ones in every tier: several meta:generator elements (i = -3), an automatic
+    style:style used by the body and by a page header (i = -2), and an automatic list style used by both, after a style only
+    the header uses (i = -1)"""
     from odf.opendocument import OpenDocumentText
-    from odf import style, text
+    from odf import style, text, meta, dc
     doc = OpenDocumentText()
+    if i == -3:
+        # generators of other applications next to the library's own (neighbours, and one behind another element): all replaced by one
+        doc.meta.addElement(meta.Generator(text='Other/1.0')); doc.meta.addElement(meta.Generator(text='Third/2.0'))
+        doc.meta.addElement(dc.Title(text='t')); doc.meta.addElement(meta.Generator(text='Fourth/4'))
+        doc.text.addElement(text.P(text='x'))
+        return doc
     doc.automaticstyles.addElement(style.PageLayout(name='pm1'))
     mp = style.MasterPage(name='Standard', pagelayoutname='pm1'); doc.masterstyles.addElement(mp)
     h = style.Header(); mp.addElement(h)
@@ -160,7 +167,7 @@ def run(ctx):
     refattrs = set(tuple(x) for x in twin['GenStyleRefs.v']['schema']) | {(STY, 'list-style-name')}
     n = 30 if ctx.quick else 800
     g = schemagen.Gen(ctx.rng, twin['GenGrammar.v'])
-    for i in range(-2, n):
+    for i in range(-3, n):
         doc = directed(i) if i < 0 else g.document()
         before = snapshot(doc)
         case = {'i': i, 'seed': ctx.seed, 'mime': doc.mimetype, 'elements': sum(X.tree_size(before['sections'][a]) for a in SECTS)}
